@@ -149,7 +149,7 @@ type transCase struct {
 	Steps  []step         `json:"steps"`
 }
 
-var transPart = pbt.Part[transCase]{Name: "cache-and-options-transparency", Quick: 900, Thorough: 18000, Check: checkTrans,
+var transPart = pbt.Part[transCase]{Name: "cache-and-options-transparency", Quick: 2000, Thorough: 24000, Check: checkTrans,
 	Gen: func(t *rapid.T) transCase {
 		l := fedgen.Gen(t, fedgen.Options{Allow: allowFromEnv()})
 		super, err := sim.LoadSuper(l.Super)
